@@ -172,6 +172,12 @@ Theorem C19_in_range : forall (expf_o : f32 -> f32) s value,
   exists c, sub_output expf_o s value = [MsgF (s_path s) c] /\ fle (s_min s) c /\ fle c (s_max s).
 Proof. exact float_output_in_range. Qed.
 
+Theorem C19_in_range_nonvacuous :
+  used ex_sub = true /\ s_type ex_sub = ch_f /\ s_scale ex_sub = 0 /\ fle (s_min ex_sub) (s_max ex_sub) /\
+  map (fun m => match m with MsgF _ c => bits_of_b32 c | _ => -1 end)
+      (sub_output (fun x => x) ex_sub ex_v1) = [1071644672].
+Proof. exact in_range_nonvacuous. Qed.
+
 (* an int-typed parameter with integral bounds a <= b receives an integer in [a,b] *)
 Theorem C19_in_range_int : forall (expf_o : f32 -> f32) s value a b,
   used s = true -> s_type s = ch_i ->
@@ -181,20 +187,31 @@ Theorem C19_in_range_int : forall (expf_o : f32 -> f32) s value a b,
   exists z, sub_output expf_o s value = [MsgI (s_path s) z] /\ a <= z <= b.
 Proof. exact int_output_in_range. Qed.
 
+Theorem C19_in_range_int_nonvacuous :
+  used ex_int_sub = true /\ s_type ex_int_sub = ch_i /\
+  finite32 (s_min ex_int_sub) /\ finite32 (s_max ex_int_sub) /\
+  val (s_min ex_int_sub) = IZR 0 /\ val (s_max ex_int_sub) = IZR 127 /\
+  sub_output (fun x => x) ex_int_sub (b32_of_bits 1056964608) = [MsgI [47; 112; 97] 64].
+Proof. exact in_range_int_nonvacuous. Qed.
+
 (* toggles receive true / false (true exactly when the mapped value exceeds 1/2) *)
 Theorem C19_toggle : forall (expf_o : f32 -> f32) s value,
   used s = true -> s_type s = ch_T ->
   sub_output expf_o s value = [MsgT (s_path s) (gt32 (lin value (cp1 s) (cp3 s)) f32_half)].
 Proof. exact toggle_output. Qed.
 
-(* the value never decreases when the slot value increases (for positive gain):
-   FULL for all finite slot values.  [remap s0] is the sub-automation after
+(* the value never decreases when the slot value increases (for positive gain).
+   FULL STATEMENT: for all slot values that are numbers ("values in and outside
+   [0,1]").  PROVED (_partial): for all FINITE slot values - side condition
+   [finite32 v1], [finite32 v2]; for an infinite slot value the statement is false
+   (C19_monotone_infinite_refuted; finding class infinite-slot-value, whose
+   classifier is "one of the two slot values is infinite").  [remap s0] is the sub-automation after
    updateMapping; [nn32 (gain s0)]: the gain is not negative (0 <= gain; +inf and
    NaN gains included); the offset is arbitrary; no condition on overflow: a
    product or sum that overflows goes to the infinity of the right sign and is
    clamped, NaN (inf-inf, 0*inf) is clamped to the minimum and arises for all
    slot values or only below the step. *)
-Theorem C19_monotone : forall (expf_o : f32 -> f32) s0 v1 v2,
+Theorem C19_monotone_partial : forall (expf_o : f32 -> f32) s0 v1 v2,
   let s := remap s0 in
   used s0 = true -> s_type s0 = ch_f -> s_scale s0 = 0 ->
   finite32 (s_min s0) -> finite32 (s_max s0) -> (val (s_min s0) <= val (s_max s0))%R ->
@@ -205,7 +222,7 @@ Theorem C19_monotone : forall (expf_o : f32 -> f32) s0 v1 v2,
                 finite32 c1 /\ finite32 c2 /\ (val c1 <= val c2)%R.
 Proof. exact float_monotone_full. Qed.
 
-Theorem C19_monotone_int : forall (expf_o : f32 -> f32) s0 v1 v2 a b,
+Theorem C19_monotone_int_partial : forall (expf_o : f32 -> f32) s0 v1 v2 a b,
   let s := remap s0 in
   used s0 = true -> s_type s0 = ch_i ->
   finite32 (s_min s0) -> finite32 (s_max s0) ->
@@ -240,7 +257,8 @@ Proof. exact lin_clamp_monotone. Qed.
 
 (* what remains false: with an INFINITE slot value the statement fails (equal
    control points: inf * 0 = NaN goes to the minimum, every finite slot value to
-   the maximum).  Reproduced on the real code (notes/C19.md). *)
+   the maximum).  Reproduced on the real code (corpus/C19/findings.txt); finding
+   class infinite-slot-value. *)
 Theorem C19_monotone_infinite_refuted :
   lt32 (cp3 inf_witness_sub) (cp1 inf_witness_sub) = false /\
   fle inf_witness_v1 inf_witness_v2 /\
@@ -258,7 +276,11 @@ Theorem C19_control_points_ordered : forall s,
 Proof. exact remap_ordered. Qed.
 
 (* at the default gain and offset slot values map linearly onto min..max.
-   FULL STATEMENT (not proved): for every declared range.
+   FULL STATEMENT: for every declared range - false (C19_default_points_inexact_refuted;
+   finding class default-points-inexact, whose classifier is the negation of this
+   side condition, computed from the source's formula, plus "the emitted value is
+   what the mapping through the computed control points gives"; the oracle of the
+   correspondence run demands clamp(v*(max-min)+min) bit-exactly).
    PROVED: under the side condition [default_points_exact mn mx] (the control
    points updateMapping computes for gain 100 / offset 0 are bit-exactly the
    bounds - a decidable check, true for the ranges of C19_default_points_examples)
@@ -367,9 +389,16 @@ Theorem C19_log_in_range : forall (logf_o expf_o : f32 -> f32) (eps : R),
             (val mn * (1 - eps) <= val o <= val mx * (1 + eps))%R.
 Proof. exact log_in_range. Qed.
 
+Theorem C19_log_in_range_nonvacuous :
+  let mn := b32_of_bits 1101004800 in let mx := b32_of_bits 1184645120 in
+  used ex_log_sub = true /\ s_type ex_log_sub = ch_f /\ s_scale ex_log_sub = 1 /\
+  finite32 mn /\ finite32 mx /\ (0 < val mn)%R /\ (val mn <= val mx)%R /\
+  s_min ex_log_sub = mn /\ s_max ex_log_sub = mx.
+Proof. exact log_in_range_nonvacuous. Qed.
+
 (* and its value never decreases when the (finite) slot value increases, for every
-   gain that is not negative *)
-Theorem C19_log_monotone : forall (expf_o : f32 -> f32), exp_mono expf_o ->
+   gain that is not negative (_partial: finite slot values, as C19_monotone_partial) *)
+Theorem C19_log_monotone_partial : forall (expf_o : f32 -> f32), exp_mono expf_o ->
   forall s0 v1 v2,
   let s := remap s0 in
   used s0 = true -> s_type s0 = ch_f -> s_scale s0 = 1 ->
